@@ -28,8 +28,9 @@ CONC_TRUST = [
     "the protocol model M5 is hand-written: one counter per control block, steps = the atomic actions of release_shared / shared_to_vec_impl / "
     "shared_to_mut_impl / Shared::is_unique / shallow_clone_arc; tied to the source by T1 (orderings + shape facts, certified by `decide` each run) "
     "and by loom runs of the real code",
-    "promotion protocol on the `data` word of promotable handles (shallow_clone_vec CAS, promotable_* loads): not in M5; covered by the loom "
-    "models p2/p8 (all interleavings + stale reads up to the preemption bound) only",
+    "promotion protocol on the `data` word of promotable handles: M5p (Model/Promo.lean: root handle shared by reference, racing "
+    "shallow_clone_vec CASes, non-atomic control-block initialisation, owner-side free / take-over of a never-promoted root) — hand-written, "
+    "tied by T1 (orderings of the three promotion sites + four shape facts) and by the loom models p2/p8 on the real code",
     "Rust's ownership / borrowing rules (a handle is used by one thread at a time; handing a handle or a &Bytes to another thread synchronises)",
     "loom 0.7 as the executor of the real code (bounded preemptions: quick 3, thorough 5)",
 ]
@@ -39,7 +40,15 @@ def conc_check(pid):
     def f(run, a):
         info = vlib.extract()
         run.cov['extracted'] = info.get('Atomics.lean')
-        props_ok, cert_ok = vlib.standard_lean_phase(run, 'BytesVerif.Props.C06', 'BytesVerif.Cert.C06')
+        props_ok, cert_ok = vlib.standard_lean_phase(run, 'BytesVerif.Props.C06', 'BytesVerif.Cert.C06', ['BytesVerif.Props.C05'])
+        names5 = vlib.theorem_names('BytesVerif/Props/C05.lean')
+        ok5, found5, problems5 = vlib.audit_axioms(['BytesVerif.Props.C05'], names5, pid + '_promo')
+        for t in names5:
+            bad = [p for p in problems5 if p.startswith(t + ':')]
+            run.obligation(t, not bad, '; '.join(bad))
+            run.axioms[t] = found5.get(t)
+        if problems5:
+            run.breakage('promotion-protocol theorems (Props/C05.lean) no longer check', '\n'.join(problems5))
         run.trusted += CONC_TRUST
         bound = 5 if run.tier == 'thorough' else 3
         rc, out = run_loom(run, bound, 3000 if run.tier == 'thorough' else 900)
@@ -78,7 +87,8 @@ def conc_check(pid):
             # certificate broken (an ordering weakened below the bound, or the shape of the protocol changed):
             # explained iff loom exhibits a failing schedule on the real code
             run.cert_breakage['explained'] = bool(failed)
-        run.samples += [f'{t} ... {r}' for t, r in tests][:4] + ['theorem ra_safe (o) (hs : Sufficient o = true) (n) (s) (hr : Reach o n s) : s.race = false ∧ s.uaf = false ∧ s.doubleFree = false']
+        run.samples += [f'{t} ... {r}' for t, r in tests][:4] + ['theorem ra_safe (o) (hs : Sufficient o = true) (n) (s) (hr : Reach o n s) : s.race = false ∧ s.uaf = false ∧ s.doubleFree = false',
+                                                                    'theorem promo_safe (o : POrds) (hs : Sufficient o = true) (n) (s) (hr : Reach o n s) : s.race = false ∧ s.ctrlRace = false ∧ s.uaf = false ∧ s.doubleFree = false']
         return run.finish()
     return f
 
